@@ -454,7 +454,7 @@ func TestLinkedPairs(t *testing.T) {
 		},
 		NonTrivial: func(c linkedPairCase) bool { return matters(c.Input.How) },
 		Classes:    func(c linkedPairCase) []string { return append([]string{"pair:" + c.Pair}, c.Input.How...) },
-		Quick:      5000, Thorough: 100000,
+		Quick:      5000, Thorough: 80000,
 	})
 }
 
@@ -606,6 +606,6 @@ func TestTranslatedSchemas(t *testing.T) {
 			}
 			return out
 		},
-		Quick: 1200, Thorough: 16000,
+		Quick: 1200, Thorough: 12000,
 	})
 }
